@@ -125,6 +125,8 @@ class Gen:
             b = ("try", [b], [(("all",), [self.plain()])], None, None)
         elif r < 0.35:
             a = ("do", [self.small_stmt(), a])
+        if self.k % 2 == 1 and self.rng.random() < 0.6:
+            self.k += 1                                # mostly an odd effect point: the call returns its FIRST argument
         return self.mk_log2(a, b)
 
     def mk_log2(self, a, b):
@@ -903,6 +905,31 @@ def make_progs(rng, n, forms, depth_lo=1, depth_hi=4, gen=None):
         g.loopvar = 0
         e = g.expr(rng.randrange(depth_lo, depth_hi + 1))
         progs.append(dress(rng, e))
+    return progs
+
+
+def focused_progs(rng, n, forms, which, fault_p=0.2):
+    """n programs, each one focused production of Gen (`which`: names of Gen methods) in a value-observing context,
+    half of them below one more random form"""
+    g = Gen(rng, forms)
+    progs = []
+    for i in range(n):
+        g.k = 0
+        g.loopvar = 0
+        e = g.use_value(getattr(g, which[i % len(which)])(3, 0), 0)
+        r = rng.random()
+        if r < 0.2:
+            e = ("do", [g.small_stmt(), e])
+        elif r < 0.35:
+            e = ("if", g.plain(), e, g.plain())
+        elif r < 0.5 and "while" in g.forms:
+            # a second evaluation of the same form: a temporary may still hold the value of the first
+            a, b = NVARS + 2 * g.loopvar, NVARS + 2 * g.loopvar + 1
+            g.loopvar += 1
+            step = ("if", ("var", b), ("setv", b, ("const", ("bool", False))), ("setv", a, ("const", ("bool", False))))
+            e = ("do", [("setv", a, ("const", ("bool", True))), ("setv", b, ("const", ("bool", True))),
+                        ("while", ("var", a), [step, ("log", g.fresh_k(), e)], None)])
+        progs.append(dress(rng, e, fault_p=fault_p))
     return progs
 
 
